@@ -473,23 +473,36 @@ def attributable(prop, script, diffs):
 
 # --------------------------------------------------------------------------- main check
 
+DET_FAMILIES = {"table": 43572, "exh": 1213568, "opx": 885120}   # sizes of the deterministic enumerations (gen prints them)
+DET_STRIDE = 104729                                                # prime, coprime to all three sizes
+
+
 def gen_family(fam, seed, count, workdir, nshards):
     per = max(1, (count + nshards - 1) // nshards)
     files = []
     procs = []
-    # the deterministic dispatch table is enumerated, not sampled: the quick tier takes a window
-    # of it that moves with the seed, the thorough tier asks for more entries than it has (= all)
-    det = {"table": 40284, "exh": 1213568}   # sizes of the deterministic enumerations (gen prints them)
-    base = (seed * count * 7919) % det[fam] if fam in det and count < det[fam] else 0
-    if fam in det and base + count > det[fam]:
-        base = det[fam] - count
+    # deterministic enumerations are not sampled at random: the thorough tier asks for at least as
+    # many entries as they have (= all, in order); the quick tier takes `count` entries spread over
+    # the whole enumeration (index = base + t * stride mod size, the base moves with the seed)
+    size = DET_FAMILIES.get(fam)
+    whole = size is not None and count >= size
+    if whole:
+        count = size
+        per = (count + nshards - 1) // nshards
+    base = 0 if (size is None or whole) else (seed * 7919 * count) % size
     for s in range(nshards):
-        first = base + s * per
-        if first - base >= count:
+        done = s * per
+        if done >= count:
             break
-        n = min(per, count - (first - base))
+        n = min(per, count - done)
         path = os.path.join(workdir, "%s-%d.script" % (fam, s))
-        procs.append(subprocess.Popen([os.path.join(BIN, "gen"), fam, str(seed), str(n), path, str(first)]))
+        if size is None:
+            args = [os.path.join(BIN, "gen"), fam, str(seed), str(n), path, str(done)]
+        elif whole:
+            args = [os.path.join(BIN, "gen"), fam, str(seed), str(n), path, str(done), "1"]
+        else:
+            args = [os.path.join(BIN, "gen"), fam, str(seed), str(n), path, str((base + done * DET_STRIDE) % size), str(DET_STRIDE)]
+        procs.append(subprocess.Popen(args))
         files.append(path)
     for p in procs:
         if p.wait() != 0:
